@@ -251,3 +251,32 @@ reg("C07",
          "of a boundary excluded. Trusted: compiled _libtoasty (pyx not rebuildable here). Private helpers _latlon_tile_filter/_image_bounds/_chunk_bounds used for conformance (drift) only.",
     technique="TLA+ function-table specs checked by TLC (BBoxFilter, ImageBounds, Chunks); TLC-emitted verdicts/sample sets/chunk grids replayed into the real code; monitors on real tiles and layers",
     design_ref="DESIGN.md 4.10, 5/C07, 9")
+
+reg("C02",
+    text="spec/Cascade.tla is a state machine over abstract T x T tiles (exact rationals for float data, integer intervals admitting either neighbour of the exact mean for "
+         "integer/colour data) as STORED: the code's two slice tables, one Merge(pos) at a time in ANY children-first order, stale parent files in the start directory, existence "
+         "rule (written iff a child exists and the merge is not entirely undefined, else an earlier file removed). TLC checks in every state that each completed position holds "
+         "exactly the property's display-orientation sentence (child (2x+i,2y+j) in quadrant row j col i, rows reversed for bottom-up formats) - hence every merge order gives one "
+         "result (serial = parallel) - plus ExistenceRule, ExistsIffDataBelow, StaleReplaced, NeverStoredUndefined, Progress, SerialAdmitted, MergeCommutes, over all 16 leaf subsets "
+         "x matrices at depth 1 (17^4 populations in thorough) and harness-enumerated depth 1-3 families in Float/Int/RGBA/RGB. Every terminal state is lifted to real 256x256 tiles "
+         "(index map under which the real merge commutes exactly), written by the real PyramidIO in fits/npy/png/jpg, cascaded by cascade_images / the CLI entry point / a "
+         "TOAST-filtered cascade with 1 and 2-3 real worker processes, and every produced file (read without toasty) compared in tile set, dtype and every pixel; parallel runs are "
+         "also compared bit-for-bit with a serial twin.",
+    note="Bounded: T=2/4/8, depth<=3 (depth 3 only with merge orders within a window of 2 and in the thorough tier); pixel patterns are lifted T x T patterns, not arbitrary noise. "
+         "Domain: integer tiles non-negative (incl. int32 values above 2^24), no all-zero integer leaf; stale parents only where a child exists (childless stale parents are not "
+         "judged); float means within 2 ulp per level; jpg approximately. Trusted: TLC, JSON bridge, numpy/astropy/PIL readers, the lifting map (verified numerically). Real parallel "
+         "cascades are sampled, not schedule-exhaustive; order-independence is exhaustive in the spec only (the walk's ordering guarantee is C01's).",
+    technique="TLA+/TLC exhaustive model checking of the cascade machine over enumerated pyramids + TLC-computed expected pyramids lifted and replayed into the real cascade",
+    design_ref="DESIGN.md 4.5, 3 (M4, M5), 5/C02")
+
+reg("C14",
+    text="The range part of spec/Cascade.tla: a leaf records the min/max of its defined final pixels, Merge records min of the children's minima / max of their maxima; TLC checks "
+         "RangeRule/LeafRangeRule in every state under every admissible merge order: the recorded range of each tile equals the range of the defined LEAF values beneath it (not of the "
+         "averaged pixels), for depth-1 populations enumerated by TLC and harness families to depth 3 (NaNs, all-NaN leaves that are not stored, zero / -0.0 extremes, integer FITS). "
+         "The FITS pyramids are written by the real PyramidIO (some leaves twice via update_image with a widening range), cascaded by cascade_images / CLI / Builder.cascade serially "
+         "and with 2-3 real processes; DATAMIN/DATAMAX of every tile (astropy), Builder's imageset data_min/data_max and the DataMin/DataMax attributes of the written index_rel.wtml "
+         "are compared at float32 precision with TLC's ranges.",
+    note="Leaves written by toasty; values finite or NaN and exactly representable in float32. +/-inf pixels are outside the quantifier ('finite data value') and not judged (observed: the "
+         "card with an infinite extreme is omitted and ancestors then miss that leaf's finite extreme - recorded in the evidence). Bounds as for C02 (T=2/4/8, depth<=3).",
+    technique="TLA+/TLC model checking of the range rule under all merge orders + replay of TLC's expected ranges against headers, ImageSet and WTML of real cascaded FITS pyramids",
+    design_ref="DESIGN.md 4.5, 5/C14")
